@@ -58,6 +58,21 @@ def trav_exefs(b):
     return n
 
 
+def trav_ncch_reader(r):
+    from pyctr.type.ncch import NCCHSection
+    n = 0
+    for s in list(r.sections):
+        n += read_all(r.open_raw_section(s))
+    n += read_all(r.open_raw_section(NCCHSection.FullDecrypted))
+    if r.exefs:
+        for e in list(r.exefs.entries):
+            n += read_all(r.exefs.open(e))
+    if r.romfs:
+        for p in r.romfs.walk.files('/'):
+            n += read_all(r.romfs.openbin(p))
+    return n
+
+
 def trav_ncch(b):
     from pyctr.type.ncch import NCCHReader, NCCHSection
     r = NCCHReader(io.BytesIO(b))
@@ -80,6 +95,8 @@ def trav_cia(b):
     n = 0
     for s in list(r.sections):
         n += read_all(r.open_raw_section(s))
+    for c in list(r.contents.values()):
+        n += trav_ncch_reader(c)
     return n
 
 
@@ -89,6 +106,8 @@ def trav_cci(b):
     n = 0
     for s in list(r.sections):
         n += read_all(r.open_raw_section(s))
+    for c in list(r.contents.values()):
+        n += trav_ncch_reader(c)
     return n
 
 
@@ -200,6 +219,7 @@ def bases():
             'ncch-enc': (cf.ncch_bytes(True), trav_ncch, 0x400, None),
             'cia': (cf.cia_bytes(True), trav_cia, 0x2040, None),
             'cci': (cf.cci_bytes(), trav_cci, 0x400, None),
+            'cci-enc': (cf.cci_bytes(True), trav_cci, 0x400, None),
             'tmd': (tmd, trav_tmd, None, None),
             'smdh': (smdh, trav_smdh, 0x40, None),
             'nand': (cf.nand_bytes()[0], trav_nand, 0x400, None),
@@ -357,6 +377,25 @@ class C19(Check):
             for c in cyc:
                 for p in prof:
                     yield {'kind': kind, 'muts': c + p}
+        # NCCH: the content size together with every section offset / size field (a size or end that outruns the file must not buy
+        # loop iterations), alone in a file and nested in a cartridge image whose partition size is inflated too
+        big = (0xFFFFFFFF, 0x7FFFFFF0, 0x00800000)
+        for kind in ('ncch', 'ncch-enc'):
+            for cs in big:
+                for fld in (0x180, 0x190, 0x194, 0x198, 0x19C, 0x1A0, 0x1A4, 0x1B0, 0x1B4):
+                    for v in (cs, cs // 2, 0x00800000):
+                        yield {'kind': kind, 'muts': [['set', 0x104, 4, cs], ['set', fld, 4, v]]}
+        ccib = bs['cci'][0]
+        p0 = int.from_bytes(ccib[0x120:0x124], 'little') * 0x200
+        for psz in big:
+            for cs in big:
+                for ck in ('cci-enc',):
+                    yield {'kind': ck, 'muts': [['set', 0x124, 4, psz], ['set', p0 + 0x104, 4, cs]]}
+                    yield {'kind': ck, 'muts': [['set', 0x124, 4, psz], ['set', 0x104, 4, psz], ['set', p0 + 0x104, 4, cs]]}
+                yield {'kind': 'cci', 'muts': [['set', 0x124, 4, psz], ['set', p0 + 0x104, 4, cs]]}
+                yield {'kind': 'cci', 'muts': [['set', 0x124, 4, psz], ['set', 0x104, 4, psz], ['set', p0 + 0x104, 4, cs]]}
+                for fld in (0x1A4, 0x1B4, 0x194):
+                    yield {'kind': 'cci', 'muts': [['set', 0x124, 4, psz], ['set', p0 + 0x104, 4, cs], ['set', p0 + fld, 4, cs // 2]]}
         # single-word retargeting of every 4-byte word of the structured header areas (save descriptors, NCCH / NCSD / ExeFS
         # headers, the TMD) to the values that turn a size, count or exponent field into something enormous
         for kind in ('diff', 'disa'):
@@ -391,7 +430,7 @@ class C19(Check):
         muts = [m for m in case['muts'] if m[0] != 'keep-head']
         data = mutate(base, muts)
         if any(m[0] == 'keep-head' for m in case['muts']) and len(data) >= 8:
-            off = 0x100 if case['kind'] in ('ncch', 'ncch-enc', 'cci', 'nand', 'diff', 'disa') else 0
+            off = 0x100 if case['kind'] in ('ncch', 'ncch-enc', 'cci', 'cci-enc', 'nand', 'diff', 'disa') else 0
             data = data[:off] + base[off:off + 8] + data[off + 8:]
         if fixer:
             data = fixer(data)
